@@ -38,6 +38,7 @@ static std::string gen_message(Rng &r, const Cfg &c, std::string &desc)
         else if(n == "s") { static const char *S[] = {"", "x", "hello world", "q\"uo\"te", "per%cent", "new\nline", "back\\sl", "fifteen chars..", "tab\there", "#hash /slash"}; const char *v = S[r.below(10)]; rtosc_message(buf, sizeof buf, a.c_str(), "s", v); desc = a + " \"" + vis(v) + "\""; }
         else if(n == "arr") { int i = (int)r.below(8), v = r.chance(0.5) ? (int)r.range(-3, 3) : (int)r.range(-100, 100); a += std::to_string(i); rtosc_message(buf, sizeof buf, a.c_str(), "i", v); desc = a + fmt(" %d", v); }
         else if(n == "farr") { int i = (int)r.below(8); float v = r.chance(0.5) ? (float)r.range(-2, 2) / 2 : (float)r.range(-40, 40) / 8; a += std::to_string(i); rtosc_message(buf, sizeof buf, a.c_str(), "f", v); desc = a + fmt(" %g", v); }
+        else if(n == "bank" || n == "engine") { int v = (int)r.below(4); rtosc_message(buf, sizeof buf, a.c_str(), "i", v); desc = a + fmt(" %d", v); }
         else if(n == "mode") { int v = (int)r.below(10); rtosc_message(buf, sizeof buf, a.c_str(), "i", v); desc = a + fmt(" %d", v); }
         else { int v = (int)r.range(-5, 120); rtosc_message(buf, sizeof buf, a.c_str(), "i", v); desc = a + fmt(" %d", v); }
     }
@@ -53,7 +54,7 @@ struct Quiet : rtosc::RtData {
 
 static bool leaf_enabled(const Root &r, const Cfg &c)
 {
-    if(c.enable_placement == 1) return r.mid.en != 0;
+    if(c.by_sibling()) return r.mid.en != 0;
     return true;
 }
 
@@ -61,7 +62,7 @@ static bool leaf_enabled(const Root &r, const Cfg &c)
 static void expect_leaf(const Leaf &l, const LeafCfg &L, const std::string &pre, std::set<std::string> &out, bool only_on = false)
 {
     // placement 2: a Leaf whose own toggle is off is skipped, except for the toggle itself
-    if(G->enable_placement == 2 && !l.on) only_on = true;
+    if(G->by_self() && !l.on) only_on = true;
     int p = l.preset - L.preset_lo;
     for(auto &n : L.order) {
         if(only_on && n != "on") continue;
@@ -77,6 +78,8 @@ static void expect_leaf(const Leaf &l, const LeafCfg &L, const std::string &pre,
         else if(n == "farr") { for(int i = 0; i < 8; ++i) if(l.farr[i] != L.farr_def[i]) differs = true; }
         else if(n == "on") differs = l.on != L.on_def;
         else if(n == "mode") differs = l.mode != L.mode_def;
+        else if(n == "bank") differs = l.bank != L.bank_def;
+        else if(n == "engine") differs = l.engine != L.engine_def;
         else if(n == "val") differs = l.val != L.val_def;
         if(differs) out.insert(pre + L.pname(n));
     }
@@ -118,7 +121,7 @@ static void neutralise(Root &loaded, const Root &orig, const Cfg &c)
     // state below a disabled sub-tree or a null pointer is not part of the savefile
     if(!leaf_enabled(orig, c)) loaded.mid.leaf = orig.mid.leaf;
     if(c.ptr_gated && !orig.mid.en) loaded.ptr_target = orig.ptr_target;
-    if(c.enable_placement == 2) {
+    if(c.by_self()) {
         // what lies below a Leaf whose toggle is off is not saved (the toggle itself is)
         auto fix = [](Leaf &l, const Leaf &o) { if(!o.on) { bool on = l.on; l = o; l.on = on; } };
         fix(loaded.mid.leaf, orig.mid.leaf); fix(loaded.top, orig.top); fix(loaded.ptr_target, orig.ptr_target);
@@ -165,8 +168,13 @@ static void make_world(Rng &r, World &w, int nmsg_max, bool focus = false)
                 w.hist += a + fmt(" %s%d; ", types, iv);
             };
             if(r.chance(0.8)) send("on", L.on_def ? "F" : "T", 0, 0);
-            if(w.cfg.enable_placement == 2 && r.chance(0.7)) send("on", "T", 0, 0);
-            if(r.chance(0.8)) send("mode", "i", (L.mode_def + 1 + (int)r.below(8)) % 10, 0);
+            if(w.cfg.by_self() && r.chance(0.7)) send("on", "T", 0, 0);
+            // the long chain: only its two ends get a line (engine ... a), or every link does
+            if(r.chance(0.7)) send("engine", "i", (L.engine_def + 1 + (int)r.below(3)) % 4, 0);
+            bool ends_only = r.chance(0.4);
+            if(!ends_only && r.chance(0.7)) send("bank", "i", (L.bank_def + 1 + (int)r.below(3)) % 4, 0);
+            if(!ends_only && r.chance(0.8)) send("mode", "i", (L.mode_def + 1 + (int)r.below(8)) % 10, 0);
+            if(ends_only) { if(r.chance(0.9)) send("a", "i", (int)r.range(200, 900), 0); count("focus.chain_ends_only"); continue; }
             if(r.chance(0.8)) send("preset", "i", L.preset_lo + 1, 0);
             if(r.chance(0.8)) send("a", "i", (int)r.range(200, 900), 0);
             if(r.chance(0.6)) send("b", "f", 0, (float)r.range(100, 300) / 4);
